@@ -74,7 +74,9 @@ func (x *Exec) fmtValue(v Value, verb byte) *Term {
 func (x *Exec) format(f *Term, args []Value) (*Term, Value) {
 	if !f.IsConst() {
 		if len(args) == 0 {
-			return f, nil
+			// a data-dependent format string: the text itself unless it contains a '%'
+			// (then fmt writes %!verb(MISSING) noise in its place)
+			return UF("fmtverbs", f), nil
 		}
 		return x.fresh("fmt", SStr), nil
 	}
